@@ -3,6 +3,7 @@ CONSTANTS
   Configs <- QSelectConfigs
   Fixed = FALSE
   AllowForeignClose = FALSE
+  AllowCancel = TRUE
 VIEW View
 INVARIANT PacketBoundary
 INVARIANT NoStaleOutput
